@@ -69,6 +69,64 @@ _CHECK = None
 def _worker_init(cid):
     global _CHECK
     _CHECK = load_check(cid)
+    _CHECK.setup()              # import the library under test; call nothing
+    _warm(_CHECK, own=True)
+
+
+def _warm(chk, own=False):
+    if getattr(chk, "USES_PRISTINE", False):
+        from sim import pristine
+        pristine.warm(own=own)
+
+
+def isolated(fn, args, cap):
+    """Run fn(*args) in a forked child and return ("ok", value) | ("err", text, trace).
+
+    Every simulated run starts from the library's import-time state: nothing a previous run of
+    the same worker left behind at module level (caches, memoised factors, registries) can
+    reach it, so a violation is a function of the plan alone and replays from the plan file in
+    a fresh interpreter.  The pristine-reference server of the parent (if any) is inherited and
+    shared, one request at a time."""
+    import pickle
+    r, w = os.pipe()
+    pid = os.fork()
+    if pid == 0:
+        code = 0
+        try:
+            os.close(r)
+            faulthandler.dump_traceback_later(cap, exit=True)
+            try:
+                out = ("ok", fn(*args))
+            except BaseException as e:  # noqa: BLE001 - reported by the parent
+                out = ("err", f"{type(e).__name__}: {e}", traceback.format_exc())
+            with os.fdopen(w, "wb") as f:
+                pickle.dump(out, f, protocol=pickle.HIGHEST_PROTOCOL)
+        except BaseException:  # noqa: BLE001
+            code = 1
+        finally:
+            os._exit(code)
+    os.close(w)
+    with os.fdopen(r, "rb") as f:
+        data = f.read()
+    os.waitpid(pid, 0)
+    if not data:
+        try:
+            from sim import pristine
+            pristine.reset_after_child_failure()
+        except Exception:  # noqa: BLE001
+            pass
+        return ("err", f"run died or exceeded the per-run cap of {cap}s", "")
+    return pickle.loads(data)
+
+
+def _gen_exec(chk, rs, mode, tier, idx):
+    plan = chk.generate(rs, mode, tier, idx)
+    res = chk.execute(plan)
+    if res.get("violation") is not None:
+        res["plan"] = plan
+    elif idx < 3:
+        res["sample"] = chk.sample_repr(plan)
+    return res
 
 
 def _run_chunk(args):
@@ -77,29 +135,28 @@ def _run_chunk(args):
     out = []
     for (mode, idx) in items:
         rs = run_seed(vseed, cid, idx, mode)
-        faulthandler.dump_traceback_later(per_run_cap, exit=True)
         t0 = time.perf_counter()
-        try:
-            plan = chk.generate(rs, mode, tier, idx)
-            res = chk.execute(plan)
+        rep = isolated(_gen_exec, (chk, rs, mode, tier, idx), per_run_cap)
+        if rep[0] == "ok":
+            res = rep[1]
             res["mode"], res["index"], res["run_seed"] = mode, idx, rs
             res["wall"] = time.perf_counter() - t0
-            if res.get("violation") is not None:
-                res["plan"] = plan
-            elif idx < 3:
-                res["sample"] = chk.sample_repr(plan)
-        except Exception as e:  # noqa: BLE001 - harness failure, reported apart from violations
-            res = {"mode": mode, "index": idx, "run_seed": rs, "harness_error":
-                   f"{type(e).__name__}: {e}", "trace": traceback.format_exc(), "wall":
-                   time.perf_counter() - t0}
-        finally:
-            faulthandler.cancel_dump_traceback_later()
+        else:  # harness failure, reported apart from violations
+            res = {"mode": mode, "index": idx, "run_seed": rs, "harness_error": rep[1],
+                   "trace": rep[2], "wall": time.perf_counter() - t0}
         out.append(res)
     return out
 
 
+def _exec_isolated(chk, plan):
+    rep = isolated(chk.execute, (plan,), chk.PER_RUN_CAP)
+    if rep[0] != "ok":
+        raise RuntimeError(rep[1] + "\n" + rep[2])
+    return rep[1]
+
+
 def _exec_for_class(chk, plan):
-    res = chk.execute(plan)
+    res = _exec_isolated(chk, plan)
     v = res.get("violation")
     return None if v is None else v["class"]
 
@@ -121,7 +178,7 @@ def panel_digests(chk, cid, vseed, tier):
     for mode, idx in panel_items(chk, tier):
         rs = run_seed(vseed, cid, idx, mode)
         plan = chk.generate(rs, mode, tier, idx)
-        res = chk.execute(plan)
+        res = _exec_isolated(chk, plan)
         out.append(f"{mode}/{idx}:{plan_digest(plan)}:{res['digest']}")
     return out
 
@@ -195,6 +252,7 @@ def main(argv=None):
 
     if args.replay:
         return replay(chk, cid, args.replay)
+    _warm(chk)
     if args.panel_child:
         for ln in panel_digests(chk, cid, vseed, args.tier):
             print("PANEL " + ln)
@@ -305,7 +363,7 @@ def main(argv=None):
         except Exception as e:  # noqa: BLE001 - a broken reducer must not hide the violation
             log(f"note: minimiser crashed ({e!r}); reporting the un-minimised plan")
             small, tests = plan, 0
-        res2 = chk.execute(small)
+        res2 = _exec_isolated(chk, small)
         vio2 = res2.get("violation") or vio
         # a minimised plan may have slid into a known finding: then it is that finding
         sig2 = chk.signature(small, vio2)
